@@ -289,6 +289,18 @@ func runRepoWalk(c *vk.Ctx, prop string, disk bool, walk []*graph.Edge, seed int
 				rr.finish() // the first load releases the lock when the handshake that drives it returns
 			} else if target := siteFor(to.Kind, to.Lpc); target != "" && target != rr.site {
 				if s := rr.advanceTo(target); s != target {
+					if s == "" && rr.prop == "C08" && to.Fetched.Kind == "good" {
+						// the real run ended although the specification's run succeeds (no fault injected, acceptable document):
+						// "a later successful refresh still takes effect" - confirm with lookups that the new list is not in force
+						rr.next = nil
+						res, _ := rw.probe(200 * time.Millisecond)
+						got, ok := listedOf(res)
+						if !ok || got != keyStr(to.Fetched.Keys) {
+							stop.Probes = res
+							c.Violation(fmt.Sprintf("%s:acceptable-%s-does-not-take-effect:stops-at=%s", backendName(disk), map[string]string{"first": "first-load", "refresh": "refresh"}[to.Kind], to.Lpc),
+								fmt.Sprintf("the origin serves an acceptable list {%s} and no fault is injected, but the %s ended before %s and the lookups answer %v (ok=%v)", keyStr(to.Fetched.Keys), to.Kind, to.Lpc, got, ok), rr.rep2(&stop))
+						}
+					}
 					c.Drift(fmt.Sprintf("repo-gate:%s:%s->%s", to.Kind, to.Lpc, s))
 					return rr.images
 				}
